@@ -866,8 +866,8 @@ def execute(h):
                     # a rate spec is any 3-element iterable
                     lib_specs.append(list(one) if (cur + i) % 3 == 0
                                      else one)
-                feed_error = (len(str(op[3])) + 3 * i) % 17 == 0 and \
-                    pv is not None
+                feed_error = int(core.digest([op[2], op[3]])[:8], 16) % 17 \
+                    == 0 and pv is not None
                 nested = op[4] if len(op) > 4 and not feed_error and \
                     pv is not None else None
                 if nested:
